@@ -24,10 +24,10 @@ ASSUMPTIONS = [
 
 
 @st.composite
-def indices_for(draw, N, allow_none=True):
+def indices_for(draw, N, allow_none=True, kmin=2):
     if allow_none and draw(st.sampled_from([False, False, True])):
         return None
-    k = draw(st.integers(2, N))
+    k = draw(st.integers(kmin, N))
     return draw(st.permutations(list(range(N))))[:k]
 
 
@@ -35,15 +35,21 @@ def indices_for(draw, N, allow_none=True):
 def _case(draw, tier):
     nmax = 5 if tier == "quick" else 6
     sz = dict(max_spikes=6 if tier == "quick" else 14)
-    g = draw(gen.int_train_lists(2, nmax, related=draw(st.sampled_from([True, True, False])),
-                                 **sz))
+    many = draw(st.integers(0, 11)) == 0
+    if many:
+        # nine to twelve short trains, eight or more of them selected: size-threshold
+        # paths of the multivariate functions (a strict subset via `indices` included)
+        g = draw(gen.int_train_lists(9, 12, related=True, max_spikes=3, max_len=24))
+    else:
+        g = draw(gen.int_train_lists(2, nmax,
+                                     related=draw(st.sampled_from([True, True, False])), **sz))
     c = gen.to_times(g)
     c["mrts"] = draw(gen.mrts_for(g, allow_auto=True))
     c["max_tau"] = draw(gen.maxtau_for(g))
     # 'auto' together with `indices`: the statement does not say which trains are
     # pooled for the threshold, so no reference values are asserted for that combination -
     # only that values, matrix and synfire indicator of the SAME call agree (run_case)
-    c["indices"] = draw(indices_for(len(c["trains"])))
+    c["indices"] = draw(indices_for(len(c["trains"]), kmin=8 if many else 2))
     c["normalize"] = draw(st.booleans())
     c["compiled"] = draw(st.booleans())
     c["prime"] = draw(st.sampled_from([None, None, None, "wider", "same"]))
@@ -233,6 +239,7 @@ def _judge(case, ctx, sts):
                     sts, **ikw, **kw)
     ctx.check(len(vals) == nsel, "values_length",
               lambda: "%d arrays for %d selected trains" % (len(vals), nsel))
+    vals_then = [np.array(v, dtype=float, copy=True) for v in vals]
     D = {}
     for x in range(nsel):
         for y in range(nsel):
@@ -284,6 +291,17 @@ def _judge(case, ctx, sts):
                   % (F, float(2 * up / ((nsel - 1) * total))))
         ctx.check(ps.close(F, ref_model, 1e-12), "synfire_value",
                   lambda: "spike_train_order=%r expected %r" % (F, float(ref_model)))
+
+    # 5b. the arrays handed out in step 3 are the caller's: the later calls (swapped pair,
+    # matrix, order) must not have written into them
+    sw = ctx.call("directionality_values_swapped_pair", pyspike.spike_directionality_values,
+                  [sts[b], sts[a]], **kw)
+    ctx.check(len(vals) == len(vals_then) and
+              all(np.array_equal(np.asarray(v, dtype=float), w) for v, w in zip(vals, vals_then)),
+              "returned_values_changed_by_later_call",
+              lambda: "spike_directionality_values returned %r; after further calls the same "
+                      "arrays read %r" % ([list(w) for w in vals_then], [list(v) for v in vals]))
+    del sw
 
     # 6. multivariate order profile = event-wise sum of the pair profiles
     if nsel > 2 or case["indices"] is not None:
